@@ -9,6 +9,8 @@ CONSTANTS RelPids, UnrelPids,  \* inbound packet IDs that are reliable / unrelia
           MaxAcks,             \* acknowledgements carried by one inbound packet
           Ticks,               \* clock steps
           MaxSubs, SubKinds,   \* further subscribers per level, and their kinds
+          StartStates,         \* how the circuit starts: {"pending"} (client endpoint), {"alive"} (bare Circuit) or both
+          Lifecycle,           \* TRUE: the handshake may complete and the circuit may be disconnected
           Depth                \* 0: unbounded, else bound on the behaviour length
 Bound == Depth = 0 \/ TLCGet("level") <= Depth
 View == core
@@ -35,8 +37,10 @@ Next == \/ \E p \in RelPids, acks \in AckSets : RecvRel(p, acks)
         \/ \E p \in UnrelPids, acks \in AckSets, match \in BOOLEAN : RecvUnrel(p, acks, match)
         \/ \E l \in Levels, k \in SubKinds : DoSubscribe(l, k)
         \/ Stray
+        \/ (Lifecycle /\ (GoAlive \/ Disconnect))
         \/ DoSendRel
         \/ DoSendUnrel
         \/ \E d \in Ticks : Tick(d)
-Spec == Init /\ [][Next]_vars
+MCInit == \E a \in StartStates : InitWith(a)
+Spec == MCInit /\ [][Next]_vars
 ====
